@@ -12,7 +12,7 @@ import yaml
 from lxml import etree as ET
 
 from ..parser_utils import ParserException
-from ..xmlparser import XML_HEADER
+from ..xmlparser import XML_HEADER, to_csv
 
 from ...format import Document, Section, Property
 from ...info import FORMAT_VERSION
@@ -294,7 +294,6 @@ class VersionConverter(object):
         """
         for prop in root.iter("property"):
             main_val = ET.Element("value")
-            multiple_values = False
             parent = prop.getparent()
 
             # If a Property has no name attribute, remove it from its parent and
@@ -314,25 +313,21 @@ class VersionConverter(object):
             prop_id = "%s|%s:%s" % (sname, stype, prop.find("name").text)
 
             # Special handling of Values
+            values = []
             for value in prop.iter("value"):
                 # Move supported elements from Value to parent Property.
                 self._handle_value(value, prop_id)
 
-                if value.text:
-                    if main_val.text:
-                        main_val.text += "," + value.text.strip()
-                        multiple_values = True
-                    else:
-                        main_val.text = value.text.strip()
+                if value.text and value.text.strip():
+                    values.append(value.text.strip())
 
                 prop.remove(value)
 
             # Append value element only if it contains an actual value
-            if main_val.text:
-                # Multiple values require brackets
-                if multiple_values:
-                    main_val.text = "[" + main_val.text + "]"
-
+            if values:
+                # Multiple values require brackets; a value containing
+                # a comma must not be split up when it is read again.
+                main_val.text = to_csv(values)
                 prop.append(main_val)
 
             # Reverse map "dependency_value", exclude unsupported Property attributes.
